@@ -40,7 +40,7 @@ def place_demo(prop, n):
 def suite():
     cmd = ["cargo", "nextest", "run", "--workspace", "--no-fail-fast", "--tool-config-file", "pb:/w/lib/nextest.toml", "--profile", "pb", "--test-threads", "8", "--offline"]
     rc, out = sh(cmd)
-    failed = sorted(set(re.findall(r"^\s+(?:FAIL|TIMEOUT|SIGABRT|SIGSEGV)\s+\[[^\]]*\]\s+(\S+\s+\S+)", out, re.M)))
+    failed = sorted(set(re.findall(r"^\s+(?:FAIL|TIMEOUT|SIGABRT|SIGSEGV)\s+\[[^\]]*\]\s+(?:\(\s*\d+/\d+\)\s+)?(\S+\s+\S+)", out, re.M)))
     m = re.search(r"(\d+) tests run: (\d+) passed", out)
     still = []
     for t in failed:
